@@ -215,6 +215,7 @@ func checkC01(c *Ctx) {
 	c.Floor("proxy-not-customised", len(created), 1, "NewSingleHostReverseProxy call sites")
 	c.copyBuffersExclusive()
 	c.abortPropagates()
+	c.presetHeadersSurviveInterim()
 
 	// 4. transport does not re-code
 	ab := p.Fn("internal/loadbalancer", "LoadBalancer", "AddBackend")
